@@ -3,7 +3,7 @@
    used only for the names of error kinds in driver output) are mapped to OCaml's; N, Z, positive
    and nat stay Coq datatypes.  No Extract Constant / Extract Inductive of our own. *)
 From Coq Require Import ExtrOcamlBasic ExtrOcamlString.
-From Theo Require Import Base VMModel Tokens Errors Regex Lexer Scan Gen_Lexer MacroExtract Grammar LR MacroApply Parser GenModel Compile.
+From Theo Require Import Base VMModel VMSpec VMCheck Tokens Errors Regex Lexer Scan Gen_Lexer MacroExtract Grammar LR MacroApply Parser GenModel Compile.
 Extraction Language OCaml.
 Set Extraction KeepSingleton.
 Cd "extracted".
@@ -11,6 +11,7 @@ Separate Extraction
   Base.dec Base.dec_z Base.str_ltb Base.str_eqb Base.ainsert
   VMModel.init VMModel.api_step VMModel.run_hist VMModel.views VMModel.isDone VMModel.getCurrentBreak
   VMModel.exec1 VMModel.execute VMModel.available VMModel.bp_ltb VMModel.z_ltb
+  VMCheck.wf_program VMCheck.acyclic_calls VMCheck.ends_in_halt VMCheck.exec_targets VMSpec.tables_ok VMSpec.no_break VMSpec.consts_in_range VMSpec.counts_ok
   Tokens.tk_num Tokens.all_tkinds Errors.ekind_name Errors.perr_type
   Scan.scan Gen_Lexer.rules Lexer.lex
   MacroExtract.extract_macros
